@@ -188,6 +188,13 @@ def step (line : String) : String :=
       let show_ : Cli.Decision → String
         | .usageError => "usage-error" | .accept => "accept" | .internalError => "internal-error"
       (Json.mkObj [("ok", Json.str (show_ (Cli.syncDecide x))), ("old", Json.str (show_ (Cli.syncDecideOld x)))]).compress
+    | .ok "norm" =>
+      let ir := match j.getObjVal? "ir" with | .ok i => irOfJson i | _ => {}
+      let inl := (j.getObjValAs? Bool "inline").toOption.getD false
+      let k : Kinds.Kind := match (j.getObjValAs? String "kind").toOption.getD "" with
+        | "class" => .cls | "argparse" => .argparse | _ => .func inl
+      if Kinds.dom k ir then (Json.mkObj [("ok", irToJson (Kinds.norm k ir))]).compress
+      else "{\"unmodelled\":\"outside the regular domain of this kind\"}"
     | .ok "conform" =>
       let b (k : String) := (j.getObjValAs? Bool k).toOption.getD false
       let o : Conform.Obs := { fileExists := b "exists", found := b "found", cmpEq := b "cmp_eq",
